@@ -387,4 +387,162 @@ structure MarketBidWf (mkt : Market) (price : Coin) : Prop where
   hcflat : (mkt.createBidFlat.map (·.1)).Nodup
   hbuyer : BuyerWf mkt.buyerFlat mkt.buyerRatios price
 
+/-! ### User fills: the named orders, the totals, the seller ratio fee, the funds
+
+"accepted only if … (for user fills) the named orders exist, are of the right side and market
+and not the filler's own, the totals stated equal the sums of the named orders, a seller
+settlement ratio exists for every price denom (when the market defines ratios at all)". -/
+
+/-- the order stored under an id -/
+def orderOf (book : List Order) (id : Nat) : Option Order := book.find? fun o => decide (o.id = id)
+
+/-- the id names an order the filler may fill: it exists, is of the wanted side, in the
+market of the message, and belongs to somebody else -/
+def Fillable (book : List Order) (marketId : Nat) (wantBid : Bool) (filler : String) (id : Nat) : Prop :=
+  ∃ o, orderOf book id = some o ∧ o.isBid = wantBid ∧ o.marketId = marketId ∧ o.owner ≠ filler
+
+instance (book : List Order) (marketId : Nat) (wantBid : Bool) (filler : String) (id : Nat) :
+    Decidable (Fillable book marketId wantBid filler id) := by
+  unfold Fillable
+  cases h : orderOf book id with
+  | none => exact isFalse (by simp)
+  | some o => exact decidable_of_iff (o.isBid = wantBid ∧ o.marketId = marketId ∧ o.owner ≠ filler) (by simp)
+
+/-- the orders the ids name, in the order of the ids -/
+def namedOrders (book : List Order) (ids : List Nat) : List Order := ids.filterMap (orderOf book)
+
+/-- the assets / the prices of the named orders -/
+def namedAssets (book : List Order) (ids : List Nat) : Coins := (namedOrders book ids).map fun o => o.assets
+def namedPrices (book : List Order) (ids : List Nat) : Coins := (namedOrders book ids).map fun o => o.price
+
+/-- two coin lists state the same total: the same amount of every denom they mention -/
+def TotalsEq (a b : Coins) : Prop :=
+  ∀ d ∈ Coins.denoms a ++ Coins.denoms b, Coins.amountOf a d = Coins.amountOf b d
+
+instance (a b : Coins) : Decidable (TotalsEq a b) := by unfold TotalsEq; exact inferInstance
+
+/-- the market can name the seller's ratio fee for prices in this denom: it defines no seller
+ratio at all, or one for the denom -/
+def SellerRatioAvail (rs : List Ratio) (d : Denom) : Prop :=
+  rs = [] ∨ ∃ r ∈ rs, r.pd = d ∧ r.fd = d
+
+instance (rs : List Ratio) (d : Denom) : Decidable (SellerRatioAvail rs d) := by
+  unfold SellerRatioAvail; exact inferInstance
+
+/-- the seller ratio fees due on a summed price: for every denom with a ratio, `⌈sum·fee/price⌉` -/
+def ratioFeesDue (rs : List Ratio) (prices : Coins) : List Denom → Coins
+  | [] => []
+  | d :: rest =>
+    (match getFeeRatio rs d d with
+     | some r => [(d, ratioFeeSpec r (Coins.amountOf prices d))]
+     | none => []) ++ ratioFeesDue rs prices rest
+
+/-- The seller filling bids can hand over the assets, and — with the price received — pay the
+seller settlement fees and then the ask creation fee. -/
+def FillBidsFundsOk (bal totalAssets totalPrice sellerFee : Coins) (cfee : Option Coin) : Prop :=
+  Coins.covers bal totalAssets = true ∧
+  Coins.covers (Coins.add (Coins.sub bal totalAssets) totalPrice) sellerFee = true ∧
+  Coins.covers (Coins.sub (Coins.add (Coins.sub bal totalAssets) totalPrice) sellerFee) (optCoins cfee) = true
+
+instance (bal ta tp sf : Coins) (cfee : Option Coin) : Decidable (FillBidsFundsOk bal ta tp sf cfee) := by
+  unfold FillBidsFundsOk; exact inferInstance
+
+/-- The buyer filling asks can — with the assets received — pay the total price, then the buyer
+settlement fees, then the bid creation fee. -/
+def FillAsksFundsOk (bal totalAssets : Coins) (totalPrice : Coin) (fees : Coins) (cfee : Option Coin) : Prop :=
+  Coins.covers (Coins.add bal totalAssets) [totalPrice] = true ∧
+  Coins.covers (Coins.sub (Coins.add bal totalAssets) [totalPrice]) fees = true ∧
+  Coins.covers (Coins.sub (Coins.sub (Coins.add bal totalAssets) [totalPrice]) fees) (optCoins cfee) = true
+
+instance (bal ta : Coins) (tp : Coin) (fees : Coins) (cfee : Option Coin) :
+    Decidable (FillAsksFundsOk bal ta tp fees cfee) := by
+  unfold FillAsksFundsOk; exact inferInstance
+
+/-- **A user fill of bids is admissible**: the market's gate (`FillBidsAdmissible`), every id
+names a bid of this market that is not the seller's own, the stated total assets are the sum of
+the named bids' assets, and the market can name the seller ratio fee of every price denom. -/
+def FillBidsOrdersOk (mk : Option Market) (book : List Order) (filler : String) (m : FillBidsMsg) : Prop :=
+  (∀ id ∈ m.ids, Fillable book m.marketId true filler id) ∧
+  TotalsEq (namedAssets book m.ids) m.totalAssets ∧
+  ∃ mkt, mk = some mkt ∧
+    ∀ d ∈ sumDenoms (namedPrices book m.ids), SellerRatioAvail mkt.sellerRatios d
+
+/-- the seller settlement fees of a fill of bids: the flat fee offered plus the ratio fees due
+on the summed price of the named bids -/
+def fillBidsSellerFee (mkt : Market) (book : List Order) (m : FillBidsMsg) : Coins :=
+  let prices : Coins := namedPrices book m.ids
+  optCoins m.sflat ++ ratioFeesDue mkt.sellerRatios prices (sumDenoms prices)
+
+/-- the seller has the funds for the fill -/
+def FillBidsFunded (mk : Option Market) (book : List Order) (bal : Coins) (m : FillBidsMsg) : Prop :=
+  ∃ mkt, mk = some mkt ∧
+    FillBidsFundsOk bal m.totalAssets (namedPrices book m.ids)
+      (fillBidsSellerFee mkt book m) m.cfee
+
+/-- **A user fill of asks is admissible** beyond the gate (`FillAsksAdmissible`): every id names
+an ask of this market that is not the buyer's own, the stated total price is the sum of the
+named asks' prices, and the market can name the seller ratio fee of every named ask. -/
+def FillAsksOrdersOk (mk : Option Market) (book : List Order) (filler : String) (m : FillAsksMsg) : Prop :=
+  (∀ id ∈ m.ids, Fillable book m.marketId false filler id) ∧
+  TotalsEq (namedPrices book m.ids) [m.totalPrice] ∧
+  ∃ mkt, mk = some mkt ∧
+    ∀ o ∈ namedOrders book m.ids, SellerRatioAvail mkt.sellerRatios o.price.1
+
+/-- the buyer has the funds for the fill -/
+def FillAsksFunded (book : List Order) (bal : Coins) (m : FillAsksMsg) : Prop :=
+  FillAsksFundsOk bal (namedAssets book m.ids) m.totalPrice m.fees m.cfee
+
+instance (mk : Option Market) (book : List Order) (filler : String) (m : FillBidsMsg) :
+    Decidable (FillBidsOrdersOk mk book filler m) := by
+  unfold FillBidsOrdersOk
+  cases mk with
+  | none => exact isFalse (by simp)
+  | some mkt =>
+    exact decidable_of_iff
+      ((∀ id ∈ m.ids, Fillable book m.marketId true filler id) ∧
+        TotalsEq (namedAssets book m.ids) m.totalAssets ∧
+        ∀ d ∈ sumDenoms (namedPrices book m.ids), SellerRatioAvail mkt.sellerRatios d)
+      (by simp)
+
+instance (mk : Option Market) (book : List Order) (bal : Coins) (m : FillBidsMsg) :
+    Decidable (FillBidsFunded mk book bal m) := by
+  unfold FillBidsFunded
+  cases mk with
+  | none => exact isFalse (by simp)
+  | some mkt =>
+    exact decidable_of_iff
+      (FillBidsFundsOk bal m.totalAssets (namedPrices book m.ids)
+        (fillBidsSellerFee mkt book m) m.cfee) (by simp)
+
+instance (mk : Option Market) (book : List Order) (filler : String) (m : FillAsksMsg) :
+    Decidable (FillAsksOrdersOk mk book filler m) := by
+  unfold FillAsksOrdersOk
+  cases mk with
+  | none => exact isFalse (by simp)
+  | some mkt =>
+    exact decidable_of_iff
+      ((∀ id ∈ m.ids, Fillable book m.marketId false filler id) ∧
+        TotalsEq (namedPrices book m.ids) [m.totalPrice] ∧
+        ∀ o ∈ namedOrders book m.ids, SellerRatioAvail mkt.sellerRatios o.price.1)
+      (by simp)
+
+instance (book : List Order) (bal : Coins) (m : FillAsksMsg) : Decidable (FillAsksFunded book bal m) := by
+  unfold FillAsksFunded; exact inferInstance
+
+/-- Well-formedness of a stored market for a fill of bids over summed prices `prices`: the
+store is a map, and the 256-bit guard of every ratio fee that is formed. -/
+structure FillBidsWf (mkt : Market) (prices : Coins) : Prop where
+  hcflat : (mkt.createAskFlat.map (·.1)).Nodup
+  hsflat : (mkt.sellerFlat.map (·.1)).Nodup
+  hratios : RatiosWf mkt.sellerRatios
+  hpos : ∀ d ∈ sumDenoms prices, 0 ≤ Coins.amountOf prices d
+  hfit : ∀ d ∈ sumDenoms prices, RatiosFit mkt.sellerRatios (d, Coins.amountOf prices d)
+
+/-- The same for a fill of asks with the named asks `orders`. -/
+structure FillAsksWf (mkt : Market) (tp : Coin) (orders : List Order) : Prop where
+  hbid : MarketBidWf mkt tp
+  hratios : RatiosWf mkt.sellerRatios
+  hpos : ∀ o ∈ orders, 0 ≤ o.price.2
+  hfit : ∀ o ∈ orders, RatiosFit mkt.sellerRatios o.price
+
 end PvModel.Admit
